@@ -20,7 +20,7 @@ TRUSTED = [
 ]
 
 
-def impl(which, a, dt, history=None):
+def impl(which, a, dt, history=None, dtype=float):
     """measure `which` of an AccSignal holding record `a`; with a history the object first holds ANOTHER record, is
     queried (velocity and the measure itself), and the record is then replaced/changed through the public API.
     The measure is called twice on the same object: the record must not change and the result must be identical."""
@@ -28,7 +28,7 @@ def impl(which, a, dt, history=None):
     a = np.array(a, dtype=float)
     f = getattr(eqsig.im, NAMES[which])
     if history is None:
-        s = eqsig.AccSignal(a, dt)
+        s = eqsig.AccSignal(a.astype(dtype), dt)      # records stored as integers (digitiser counts) are the same numbers
     else:
         other = a[::-1] * 0.5 + 0.25
         s = eqsig.AccSignal(other, dt)
@@ -107,11 +107,14 @@ def run(rep, rng, tier):
             a, _ = gens.int_record(rng, n, amp=rng.choice([3, 10]))
             dt = gens.dyadic_dt(rng, 1, 6)
             hist = HISTORIES[k % len(HISTORIES)]
-            r = guarded(impl, which, a, dt, hist)
+            dty = np.int64 if (hist is None and k % 2 == 0 and np.all(a == np.round(a))) else float
+            r = guarded(impl, which, a, dt, hist, dty)
             if isinstance(r, ImplError):
                 rep.violation(NAMES[which], {'function': NAMES[which], 'args': {'dt': dt, 'values': list(a), 'history': hist}, 'impl_error': str(r)})
                 continue
             c = mk(which, a, dt, r, 1e-13 if which == 0 else 0)
+            if dty is not float:
+                c.site = c.site + '[int64 record]'
             if hist:
                 c.replay['history'] = ['construct on reversed*0.5+0.25', 'read velocity, displacement, measure', hist, 'measure']
                 c.site = c.site + '[after %s]' % hist
